@@ -26,8 +26,8 @@ AlphaThorough == AlphaQuick \o <<
   D(3, "ok", "ok", "none")
 >>
 
-CoordsQuick    == {<<1, 0>>, <<1, 1>>, <<2, 0>>, <<3, 0>>}
-CoordsThorough == {<<1, 0>>, <<1, 1>>, <<2, 0>>, <<3, 0>>, <<3, 1>>}
+CoordsQuick    == {<<1, 0>>, <<2, 1>>, <<2, 2>>, <<3, 0>>}
+CoordsThorough == {<<1, 0>>, <<1, 1>>, <<2, 1>>, <<2, 2>>, <<3, 0>>}
 
 (* non-trivial: the result is deactivated or a recover was applied, and   *)
 (* the store holds an operation ordered after that deactivate/recover     *)
